@@ -199,6 +199,9 @@ func Eval(c *core.Ctx, line string) *core.Case {
 			return "ok " + core.Hex(out)
 		})
 		wire := "~"
+		if res == "nil" {
+			wire = "nil" // no packet to read the iteration order from; tells the driver which of the order-dependent outcomes happened
+		}
 		var ref map[byte][]byte
 		var worder []byte
 		wf := false
